@@ -660,6 +660,24 @@ Proof.
     destruct (negb (i64 (out_value + fee) =? z)); reflexivity.
 Qed.
 
+Lemma members_loop_np member pks :
+  Forall (fun k => len k = 34) pks -> np (members_loop member pks).
+Proof.
+  induction pks as [|pk rest IH]; intros Hf; cbn [members_loop]; [reflexivity|].
+  inversion Hf as [|? ? Hpk Hrest]; subst. unfold slice_from.
+  destruct (slice_ok pk 1 (len pk)) as [k [Hk _]]; [lia|lia|]. rewrite Hk. cbn [bind].
+  destruct (negb (member k)); [reflexivity|]. apply IH. exact Hrest.
+Qed.
+
+Lemma arbiter_signatures_np counts_ok member codes : np (arbiter_signatures counts_ok member codes).
+Proof.
+  unfold arbiter_signatures.
+  np_step; [reflexivity|]. np_step. np_step; [reflexivity|]. np_step. np_step.
+  np_step; [reflexivity|].
+  destruct (parse_script_np 174 v) as [r [Hr Hf]]. rewrite Hr. cbn [bind].
+  destruct r; [|reflexivity]. apply members_loop_np. exact Hf.
+Qed.
+
 (* ---------------------------------------------------------------- composition *)
 
 Lemma validate_tx_programs_np decode verify schnorr allowed ps hashes progs known version sigok owner :
